@@ -798,9 +798,8 @@ func binop(op string, a, b float64) (float64, string) {
 	case "^":
 		return math.Pow(a, b), ""
 	case "==", "<", "<=", ">", ">=":
-		if math.IsNaN(a) || math.IsNaN(b) {
-			return 0, "comparison with NaN"
-		}
+		// NaN is not ordered and not equal to anything (IEEE 754, the arithmetic of float64 that the
+		// formulas are documented to use): every one of the five comparisons with a NaN operand is false
 		switch op {
 		case "==":
 			return b2f(a == b), ""
